@@ -1081,8 +1081,11 @@ class YAMLPath:
         prefix_str = str(prefix)
         path_str = str(path)
         if path_str.startswith(prefix_str):
-            path_str = path_str[len(prefix_str):]
-            return YAMLPath(path_str)
+            # The prefix must end where a segment of the path ends; /abc is
+            # not a prefix of /abcdef/ghi
+            remainder = path_str[len(prefix_str):]
+            if remainder == "" or remainder[0] in "/[(":
+                return YAMLPath(remainder)
 
         return path
 
